@@ -275,6 +275,118 @@ theorem propagate_guard (fs d : Secret) (hx : fs.ctrl = .xr) (h : controllable d
     propagate true true (some fs) (some d) = ⟨some d, false, true, 0⟩ := by
   simp [propagate, hx, h]
 
+/-! ### both writers in an environment: informer-cache misses and a concurrent writer -/
+
+theorem publishE_no_env (wants : Bool) (filter : List String) (details : Data) (slot : Slot) :
+    publishE {} wants filter details slot = publish wants filter details slot := by
+  unfold publishE
+  cases slot with
+  | none => cases wants <;> simp [publish]
+  | some s => cases wants <;> simp [publish]
+
+theorem propagateE_no_env (fw tw : Bool) (src dst : Slot) :
+    propagateE {} fw tw src dst = propagate fw tw src dst := by
+  unfold propagateE propagate
+  by_cases h : (!fw || !tw) = true
+  · simp [h]
+  · simp only [h]
+    cases src with
+    | none => rfl
+    | some fs =>
+      by_cases hx : fs.ctrl = .xr
+      · cases dst with
+        | none => simp [hx]
+        | some d => simp [hx]
+      · simp [hx]
+
+/-- **An existing secret the cache has not seen is never overwritten**: whatever it is (own,
+foreign, uncontrolled), the publisher's Create is refused and the secret stays as it was. -/
+theorem publishE_miss_keeps (e : Env) (he : e.miss = true) (wants : Bool) (filter : List String) (details : Data) (s : Secret) :
+    (publishE e wants filter details (some s)).slot = some s ∧ (publishE e wants filter details (some s)).published = false := by
+  unfold publishE
+  cases wants <;> simp [he]
+
+/-- **The guard holds in every environment**: a destination the XR may not control is left
+exactly as it was and nothing is reported published, with or without a cache miss. -/
+theorem publishE_guard (e : Env) (filter : List String) (details : Data) (s : Secret)
+    (h : controllable s .owner = false) :
+    (publishE e true filter details (some s)).slot = some s ∧ (publishE e true filter details (some s)).published = false := by
+  unfold publishE
+  cases hm : e.miss
+  · simp [publish, h]
+  · simp
+
+/-- **Exact copy and provenance in every environment**: whenever the propagation reports
+success, the claim's secret holds exactly the data of the source secret that was read and
+checked to be controlled by the bound XR. -/
+theorem propagateE_exact (e : Env) (src dst : Slot) (h : (propagateE e true true src dst).published = true) :
+    ∃ fs, src = some fs ∧ fs.ctrl = .xr ∧ (propagateE e true true src dst).slot = some ⟨true, .owner, fs.data⟩ := by
+  unfold propagateE at h ⊢
+  simp only [Bool.not_true, Bool.or_self, Bool.false_eq_true, if_false] at h ⊢
+  cases src with
+  | none => simp at h
+  | some fs =>
+    simp only [] at h ⊢
+    by_cases hx : fs.ctrl = .xr
+    · refine ⟨fs, rfl, hx, ?_⟩
+      simp only [hx, ne_eq, not_true_eq_false, if_false] at h ⊢
+      cases dst with
+      | none => rfl
+      | some d =>
+        simp only [] at h ⊢
+        split at h
+        · simp at h
+        · split at h
+          · simp at h
+          · split at h
+            · simp at h
+            · split at h
+              · simp at h
+              · rename_i h1 h2 h3 h4; simp [h1, h2, h3, h4]
+    · simp [hx] at h
+
+/-- **Whatever the environment, a claim's secret changes only by such a copy**: if the
+destination differs afterwards, the propagation reported success (so `propagateE_exact`
+applies); in particular a Conflict caused by a concurrent writer, a cache miss, a foreign
+destination or an unowned source leave it exactly as it was. -/
+theorem propagateE_changes_only_by_copy (e : Env) (fw tw : Bool) (src dst : Slot)
+    (h : (propagateE e fw tw src dst).slot ≠ dst) : (propagateE e fw tw src dst).published = true ∧ fw = true ∧ tw = true := by
+  unfold propagateE at h ⊢
+  by_cases hw : (!fw || !tw) = true
+  · simp [hw] at h
+  · have hfw : fw = true := by cases fw <;> simp_all
+    have htw : tw = true := by cases tw <;> simp_all
+    subst hfw; subst htw
+    simp only [Bool.not_true, Bool.or_self, Bool.false_eq_true, if_false] at h ⊢
+    cases src with
+    | none => simp at h
+    | some fs =>
+      simp only [] at h ⊢
+      by_cases hx : fs.ctrl = .xr
+      · simp only [hx, ne_eq, not_true_eq_false, if_false] at h ⊢
+        cases dst with
+        | none => simp
+        | some d =>
+          simp only [] at h ⊢
+          split at h
+          · simp at h
+          · split at h
+            · simp at h
+            · split at h
+              · simp at h
+              · split at h
+                · simp at h
+                · rename_i h1 h2 h3 h4; simp [h1, h2, h3, h4]
+      · simp [hx] at h
+
+/-- non-vacuity: a concurrent writer turns the update into a Conflict and the claim's secret
+keeps its old data; without it the same call copies the XR's data -/
+example :
+    (propagateE { swap := true } true true (some ⟨true, .xr, [("user", "u")]⟩) (some ⟨true, .owner, [("user", "old")]⟩)).slot
+      = some ⟨true, .owner, [("user", "old")]⟩ ∧
+    (propagateE {} true true (some ⟨true, .xr, [("user", "u")]⟩) (some ⟨true, .owner, [("user", "old")]⟩)).slot
+      = some ⟨true, .owner, [("user", "u")]⟩ := by decide
+
 theorem dataEq_self (a : Data) (hn : (a.map (·.1)).Nodup) : dataEq a a = true := by
   have : ∀ kv ∈ a, dget a kv.1 = some kv.2 := by
     induction a with
